@@ -130,10 +130,30 @@ impl Check for C06 {
     fn generate(&self, u: &mut Unstructured, tier: Tier) -> Option<Case> {
         let mut t = Tape::new(u);
         let cfg = lexical_cfg(&mut t, tier == Tier::Thorough);
-        let prog = Gen::new(&mut t, cfg).program();
+        let mut prog = Gen::new(&mut t, cfg).program();
+        // a quarter of the cases: loop exits and returns planted at arbitrary statement positions. Most of these
+        // programs must be rejected (discarded); whatever the compiler accepts has to load
+        if t.chance(1, 4) {
+            let n = 1 + t.below(2);
+            for _ in 0..n {
+                let (ss, _) = syltmodel::plant::sites(&prog);
+                if ss.is_empty() {
+                    break;
+                }
+                let i = t.below(ss.len());
+                let st = match t.below(4) {
+                    0 => Stmt::Break,
+                    1 => Stmt::Continue,
+                    2 => Stmt::Ret(None),
+                    _ => Stmt::Ret(Some(int(0))),
+                };
+                prog = syltmodel::plant::insert_stmt(&prog, i, st);
+            }
+        }
         let plan = SurfacePlan::default();
         let source = render(&prog, &plan).text;
-        let features = features(&prog, &source);
+        let mut features = features(&prog, &source);
+        let _ = &mut features;
         Some(Case { prog: ProgCase { prog, plan, source }, features })
     }
 
@@ -221,7 +241,9 @@ impl Check for C06 {
          that Sylt allows (elseif for function goto local repeat return then until while), underscore and long names; string literals \
          over arbitrary characters except the double quote (newline, CR, tab, control characters, UTF-8 incl. 4-byte; backslash in the \
          20% of cases that run without the known-finding avoidance switches); ints up to i64::MAX, floats 1e308 1e-320 .5 5. 1e+2; \
-         unused expression statements of every kind; statements after `ret`; straight-line bodies of up to 260 extra definitions. \
+         unused expression statements of every kind; statements after `ret`; straight-line bodies of up to 260 extra definitions; \
+         in a quarter of the cases 1-2 `break` / `continue` / `ret` statements planted at arbitrary statement positions (function bodies, \
+         closures, pure closures inside loops, branches, arms: mostly rejected and then discarded, whatever is accepted must load). \
          Oracle: compile Accepted => the chunk passes mini-Lua's loader (lparser.c rules incl. 200 locals / 255 upvalues / C levels / \
          return-must-be-last / reserved words / escapes / goto-label rules); register-estimate >= 230 or C levels >= 185 => case \
          is inconclusive (discarded). non-trivial = accepted and at least one lexical corner feature present; distinct by case hash"
